@@ -156,9 +156,9 @@ def run(prop, args):
         raw = os.path.join(wd, "raw%d.ndjson" % i)
         env = dict(os.environ)
         env["PIXMAN_DISABLE"] = dis
-        p = vf.sh([exe, script, raw], env=env, timeout=900, check=False)
-        if p.returncode != 0:
-            raise vf.Infra("drv_opacity failed: " + p.stdout[-800:])
+        rc, out = vf.run_driver([exe, script, raw], raw, env={"PIXMAN_DISABLE": dis}, timeout=900)
+        if rc == 3:
+            raise vf.Infra("drv_opacity could not read its script: " + out[-800:])
         # split into batches of whole pairs; every batch starts with Reset + the Valid event
         body = open(raw).read().splitlines(True)[1:]
         nb = 6
@@ -170,6 +170,7 @@ def run(prop, args):
                 pid = int(re.search(r'"pair":(\d+)', ln).group(1))
                 chunks[pid % nb] += cur
                 cur = []
+        chunks[0] += cur          # an incomplete tail (e.g. a Crash event) must reach TLC too
         for b in range(nb):
             fn = os.path.join(wd, "c%d_%d.ndjson" % (i, b))
             with open(fn, "w") as f:
